@@ -5,7 +5,7 @@ V = {}
 def variant(name, *edits): V[name] = edits
 
 variant("io.Discard",
-  ("conn.go", "	io.Copy(ioutil.Discard, r) // Make sure all the data has been consumed\n	c.writeResponse(code, enhancedCode, msg)", "	io.Copy(io.Discard, r) // Make sure all the data has been consumed\n	c.writeResponse(code, enhancedCode, msg)"))
+  ("conn.go", "	_, drainErr := io.Copy(ioutil.Discard, r) // Make sure all the data has been consumed\n	c.writeResponse(code, enhancedCode, msg)", "	_, drainErr := io.Copy(io.Discard, r) // Make sure all the data has been consumed\n	c.writeResponse(code, enhancedCode, msg)"))
 variant("comments-and-blank-lines",
   ("conn.go", "// READY state -> waiting for MAIL\n", "// READY state -> waiting for MAIL\n//\n// extra comment line 1\n// extra comment line 2\n\n"),
   ("data.go", "type dataReader struct {", "// a comment\n\n// another\ntype dataReader struct {"))
@@ -24,10 +24,10 @@ variant("helper-greeted",
   ("conn.go", "func (c *Conn) Server() *Server {", "func (c *Conn) greeted() bool {\n	return c.helo != \"\"\n}\n\nfunc (c *Conn) Server() *Server {"))
 variant("drain-helper",
   ("conn.go", """	r.limited = false
-	io.Copy(ioutil.Discard, r) // Make sure all the data has been consumed
-	c.writeResponse(code, enhancedCode, msg)""", """	r.drain()
+	_, drainErr := io.Copy(ioutil.Discard, r) // Make sure all the data has been consumed
+	c.writeResponse(code, enhancedCode, msg)""", """	drainErr := r.drain()
 	c.writeResponse(code, enhancedCode, msg)"""),
-  ("data.go", "func (r *dataReader) Read(b []byte) (n int, err error) {", "// drain consumes whatever the backend left unread.\nfunc (r *dataReader) drain() {\n	r.limited = false\n	io.Copy(io.Discard, r)\n}\n\nfunc (r *dataReader) Read(b []byte) (n int, err error) {"))
+  ("data.go", "func (r *dataReader) Read(b []byte) (n int, err error) {", "// drain consumes whatever the backend left unread.\nfunc (r *dataReader) drain() error {\n	r.limited = false\n	_, err := io.Copy(io.Discard, r)\n	return err\n}\n\nfunc (r *dataReader) Read(b []byte) (n int, err error) {"))
 variant("reorder-success-stores",
   ("conn.go", """	c.writeResponse(250, EnhancedCode{2, 0, 0}, fmt.Sprintf("Roger, accepting mail from <%v>", from))
 	c.fromReceived = true""", """	c.fromReceived = true
@@ -90,26 +90,23 @@ variant("quit-helper",
   ("conn.go", "func (c *Conn) Server() *Server {", "func (c *Conn) handleQuit() {\n	c.writeResponse(221, EnhancedCode{2, 0, 0}, \"Bye\")\n	c.Close()\n}\n\nfunc (c *Conn) Server() *Server {"))
 
 variant("refusechunk-helper-correct",
-  ("conn.go", """		// RFC 3030: the chunk of a refused BDAT must be discarded, it
-		// must not be interpreted as commands.
-		io.Copy(ioutil.Discard, io.LimitReader(c.text.R, int64(size)))
+  ("conn.go", """		_, discardErr := io.Copy(ioutil.Discard, io.LimitReader(c.text.R, int64(size)))
 		c.writeResponse(502, EnhancedCode{5, 5, 1}, "Missing RCPT TO command.")
+		if discardErr != nil {
+			// The end of the chunk was not reached (timeout, connection
+			// error): what follows in the stream is not a command.
+			c.Close()
+		}
 		return""", """		c.refuseChunk(size, 502, EnhancedCode{5, 5, 1}, "Missing RCPT TO command.")
 		return"""),
-  ("conn.go", """			io.Copy(ioutil.Discard, io.LimitReader(c.text.R, int64(size)))
+  ("conn.go", """			_, discardErr := io.Copy(ioutil.Discard, io.LimitReader(c.text.R, int64(size)))
 			c.writeResponse(501, EnhancedCode{5, 5, 4}, "Unknown BDAT argument")
+			if discardErr != nil {
+				c.Close()
+			}
 			return""", """			c.refuseChunk(size, 501, EnhancedCode{5, 5, 4}, "Unknown BDAT argument")
 			return"""),
-  ("conn.go", """		c.writeResponse(552, EnhancedCode{5, 3, 4}, "Max message size exceeded")
-
-		// Discard chunk itself without passing it to backend.
-		io.Copy(ioutil.Discard, io.LimitReader(c.text.R, int64(size)))
-
-		c.reset()
-		return""", """		c.refuseChunk(size, 552, EnhancedCode{5, 3, 4}, "Max message size exceeded")
-		c.reset()
-		return"""),
-  ("conn.go", "// ErrDataReset is returned by Reader pased", "func (c *Conn) refuseChunk(size uint64, code int, ec EnhancedCode, msg string) {\n	io.Copy(ioutil.Discard, io.LimitReader(c.text.R, int64(size)))\n	c.writeResponse(code, ec, msg)\n}\n\n// ErrDataReset is returned by Reader pased"))
+  ("conn.go", "// ErrDataReset is returned by Reader pased", "func (c *Conn) refuseChunk(size uint64, code int, ec EnhancedCode, msg string) {\n	_, err := io.Copy(ioutil.Discard, io.LimitReader(c.text.R, int64(size)))\n	c.writeResponse(code, ec, msg)\n	if err != nil {\n		c.Close()\n	}\n}\n\n// ErrDataReset is returned by Reader pased"))
 variant("greet-reply-helper",
   ("conn.go", """	if !enhanced {
 		c.writeResponse(250, EnhancedCode{2, 0, 0}, fmt.Sprintf("Hello %s", domain))
@@ -365,6 +362,49 @@ variant("rcpt-record-helper",
 	return nil""", """	c.recordRcpt(to)
 	return nil"""),
   ("client.go", "func (c *Client) Rcpt(to string, opts *RcptOptions) error {", "func (c *Client) recordRcpt(to string) {\n	c.rcpts = append(c.rcpts, to)\n}\n\nfunc (c *Client) Rcpt(to string, opts *RcptOptions) error {"))
+variant("last-toupper-compare",
+  ("conn.go", """		if !strings.EqualFold(args[1], "LAST") {""", """		if strings.ToUpper(args[1]) != "LAST" {"""))
+variant("bdat-args-len-lt1",
+  ("conn.go", """	args := strings.Fields(arg)
+	if len(args) == 0 {
+		c.writeResponse(501, EnhancedCode{5, 5, 4}, "Missing chunk size argument")""", """	args := strings.Fields(arg)
+	if len(args) < 1 {
+		c.writeResponse(501, EnhancedCode{5, 5, 4}, "Missing chunk size argument")"""))
+variant("intransfer-helper",
+  ("conn.go", """	if c.bdatPipe != nil {
+		c.writeResponse(502, EnhancedCode{5, 5, 1}, "RCPT not allowed during message transfer")""", """	if c.inTransfer() {
+		c.writeResponse(502, EnhancedCode{5, 5, 1}, "RCPT not allowed during message transfer")"""),
+  ("conn.go", "func (c *Conn) Server() *Server {", "func (c *Conn) inTransfer() bool {\n	return c.bdatPipe != nil\n}\n\nfunc (c *Conn) Server() *Server {"))
+variant("new-verb-xclient",
+  ("conn.go", """	case "STARTTLS":
+		c.handleStartTLS()""", """	case "STARTTLS":
+		c.handleStartTLS()
+	case "XCLIENT":
+		c.writeResponse(502, EnhancedCode{5, 5, 1}, "XCLIENT command not implemented")"""))
+variant("rset-reply-first",
+  ("conn.go", """		c.reset()
+		c.writeResponse(250, EnhancedCode{2, 0, 0}, "Session reset")""", """		c.writeResponse(250, EnhancedCode{2, 0, 0}, "Session reset")
+		c.reset()"""))
+variant("quit-const-reply",
+  ("conn.go", """		c.writeResponse(221, EnhancedCode{2, 0, 0}, "Bye")
+		c.Close()""", """		const bye = "Bye"
+		c.writeResponse(221, EnhancedCode{2, 0, 0}, bye)
+		c.Close()"""))
+variant("errcount-plus-equals",
+  ("conn.go", """	c.errCount++
+	if c.errCount > errThreshold {""", """	c.errCount += 1
+	if c.errCount > errThreshold {"""))
+variant("threshold-ge-plus1",
+  ("conn.go", """	if c.errCount > errThreshold {""", """	if c.errCount >= errThreshold+1 {"""))
+variant("client-close-early-guard",
+  ("client.go", """	expectedResponses := len(d.c.rcpts)
+	if d.c.lmtp {""", """	expectedResponses := len(d.c.rcpts)
+	if d.c.lmtp && expectedResponses >= 0 {"""))
+variant("data-reader-named-var",
+  ("conn.go", """	r := newDataReader(c)
+	code, enhancedCode, msg := dataErrorToStatus(c.Session().Data(r))""", """	body := newDataReader(c)
+	r := body
+	code, enhancedCode, msg := dataErrorToStatus(c.Session().Data(r))"""))
 if sys.argv[1:] == ['--export']:
     out = [{"id": "benign-" + n, "edits": [{"file": f, "old": o, "new": w} for f, o, w in V[n]]} for n in V]
     json.dump(out, open('/verif/liveness/benign.json', 'w'), indent=1)
